@@ -451,10 +451,63 @@ pub fn run(ctx: &Ctx) -> Report {
         st = st.merge(part);
     }
 
+    // (5) the request date of a presigned folded request is the URL's: X-Amz-Date both in the URL and in the form body, on
+    //     opposite sides of the window (fresh in the URL and an hour old in the body: accepted; the reverse: refused
+    //     before any key lookup), with 0..10 other body parameters and 0 / 2 / 6 other URL parameters
+    {
+        let server = servers[0];
+        let n5 = (2 * 11 * 3 * 2) as u64;
+        let base5 = total + 70_000_000;
+        let part = par_sweep(n5, |i, st| {
+            let mut x = i as usize;
+            let with_token = x % 2 == 1;
+            x /= 2;
+            let n_url = [0usize, 2, 6][x % 3];
+            x /= 3;
+            let n_extra = x % 11;
+            x /= 11;
+            let fresh_in_url = x % 2 == 0;
+            let fresh = server.compact();
+            let stale = Instant::new(server.secs - 3600, 0).compact();
+            let mut plan = e2e::base_plan(Carrier::Query);
+            plan.method = "POST".into();
+            plan.headers.push(("Content-Type".into(), b"application/x-www-form-urlencoded".to_vec()));
+            plan.signed = vec!["host".into()];
+            if with_token {
+                plan.token = Some("TOKEN".into());
+            }
+            // the signer signs for the instant the URL names
+            plan.instant = if fresh_in_url { server } else { Instant::new(server.secs - 3600, 0) };
+            plan.date_text = plan.instant.compact();
+            e2e::rekey(&mut plan, e2e::SECRET, "us-east-1", "service");
+            plan.url_params = (0..n_url).map(|k| (format!("u{}", k).into_bytes(), b"1".to_vec())).collect();
+            let mut body_params: Vec<(Vec<u8>, Vec<u8>)> = (0..n_extra).map(|k| (format!("p{}", k).into_bytes(), b"2".to_vec())).collect();
+            body_params.insert(n_extra / 2, (b"X-Amz-Date".to_vec(), if fresh_in_url { stale.clone() } else { fresh.clone() }.into_bytes()));
+            plan.body = refmodel::sign::spell_query(&body_params).into_bytes();
+            plan.body_params = Some(body_params);
+            let mut cfg = Cfg::basic(server);
+            cfg.fold = true;
+            let case = Case { wire: WireReq::from_wire(&build(&plan).wire), cfg, prov: ProvSpec::standard() };
+            let before = st.violations.len();
+            let j = e2e::judge_into(base5 + i, &case, st);
+            if st.violations.len() > before {
+                if let Some(v) = st.violations.last_mut() {
+                    v.what = format!("url-date-counts({} in the URL, {} in the body, {} other body and {} other URL parameters):{}", if fresh_in_url { "fresh" } else { "an hour old" }, if fresh_in_url { "an hour old" } else { "fresh" }, n_extra, n_url, v.what);
+                }
+            }
+            if !j.unspecified && j.reference.accepted() != fresh_in_url {
+                crate::core::machinery_error(&format!("C04 (5): reference verdict {:?} for fresh_in_url={}", j.reference.error, fresh_in_url));
+            }
+            st.state(&(fresh_in_url, j.reference.stage as u8, "url-date"));
+            st.nontrivial(&(fresh_in_url, n_extra, n_url, with_token, "url-date"));
+        });
+        st = st.merge(part);
+    }
+
     Report {
         stats: st,
         rule: format!(
-            "{} server instants (plain, +1 ns, +999999999 ns, leap day, month/year/day boundaries) x {} offsets request-server (every whole second in [-1200 s, +1200 s]; +-1, 2, 1000 ns, 1 ms, 999999999 ns around both bounds; {} millisecond points within +-2 s of both bounds; +-1 h, 1 day, 1 year, 901 s; and the distances +-2^31 .. 2^36 s, 2 and 3 times 2^32 s, 2^63 and 2^64 ns, 2^31 and 2^32 ms, 2^53 us, each exactly and 1 / 899 / 900 / 901 s to either side) x {} renderings (basic/extended Z, +05:30, -08:00, +14:00, -12:00, 9/12-digit fractions with '.' and ',', fractions of 20, 49 and 309 digits, +-00:01, -09:30, +12:45, -0000) x carrier x {} lifetime decorations (none, or X-Amz-Expires = 60 .. 604800 s as a signed query parameter / signed header next to an Expires header) x session token present or not; every request freshly and correctly signed (scope date = UTC date of its instant). Oracle: Ok iff |t - now| <= 900 s at nanosecond resolution; otherwise SignatureDoesNotMatch/403 with an empty provider log; (2) every sequence of 1..2 (thorough 3) operations {{prevalidate, validate_signature, validate_signature on a clone}} x 3 configurations (the request's own scope, another service, a 5-minute window) x 5 server clocks (0, +900, +901, -901, +960 s) on one authenticator object built through the unstable API from a valid request, on both carriers, each operation judged alone; (3) every ordered pair of requests validated one after the other on one thread whose date texts share the wall-clock digits (basic / extended) and a fraction of 0, 9, 21 or 40 zero digits ('.' or ',') and differ in the zone designator (Z, +00:00, +05:00, -05:00, +0010, -00:14: instants up to five hours apart), the second judged as if alone; (4) fresh (accepted) and hour-old (refused) requests with a date input of the other carrier as an unsigned bystander (X-Amz-Date / Date header next to query authentication, X-Amz-Date parameter next to header authentication; a day old, a day ahead, fresh) x bodies of 0, 1 MiB + 1, 8 MiB + 1, 16 MiB + 1 (thorough 64 MiB + 1) bytes. states = (inside, side, stage)",
+            "{} server instants (plain, +1 ns, +999999999 ns, leap day, month/year/day boundaries) x {} offsets request-server (every whole second in [-1200 s, +1200 s]; +-1, 2, 1000 ns, 1 ms, 999999999 ns around both bounds; {} millisecond points within +-2 s of both bounds; +-1 h, 1 day, 1 year, 901 s; and the distances +-2^31 .. 2^36 s, 2 and 3 times 2^32 s, 2^63 and 2^64 ns, 2^31 and 2^32 ms, 2^53 us, each exactly and 1 / 899 / 900 / 901 s to either side) x {} renderings (basic/extended Z, +05:30, -08:00, +14:00, -12:00, 9/12-digit fractions with '.' and ',', fractions of 20, 49 and 309 digits, +-00:01, -09:30, +12:45, -0000) x carrier x {} lifetime decorations (none, or X-Amz-Expires = 60 .. 604800 s as a signed query parameter / signed header next to an Expires header) x session token present or not; every request freshly and correctly signed (scope date = UTC date of its instant). Oracle: Ok iff |t - now| <= 900 s at nanosecond resolution; otherwise SignatureDoesNotMatch/403 with an empty provider log; (2) every sequence of 1..2 (thorough 3) operations {{prevalidate, validate_signature, validate_signature on a clone}} x 3 configurations (the request's own scope, another service, a 5-minute window) x 5 server clocks (0, +900, +901, -901, +960 s) on one authenticator object built through the unstable API from a valid request, on both carriers, each operation judged alone; (3) every ordered pair of requests validated one after the other on one thread whose date texts share the wall-clock digits (basic / extended) and a fraction of 0, 9, 21 or 40 zero digits ('.' or ',') and differ in the zone designator (Z, +00:00, +05:00, -05:00, +0010, -00:14: instants up to five hours apart), the second judged as if alone; (4) fresh (accepted) and hour-old (refused) requests with a date input of the other carrier as an unsigned bystander (X-Amz-Date / Date header next to query authentication, X-Amz-Date parameter next to header authentication; a day old, a day ahead, fresh) x bodies of 0, 1 MiB + 1, 8 MiB + 1, 16 MiB + 1 (thorough 64 MiB + 1) bytes; (5) presigned folded requests with X-Amz-Date both in the URL and in the form body on opposite sides of the window x 0..10 other body parameters x 0 / 2 / 6 other URL parameters x token: the URL's date counts. states = (inside, side, stage)",
             n_serv, n_off, if thorough { "all" } else { "every 25th of the" }, n_rend, n_life
         ),
         bounds: json!({"servers": n_serv, "offsets": n_off, "renderings": n_rend}),
